@@ -15,7 +15,11 @@ Binding: histories on a lattice are replayed into real Inlet / Outlet objects
          +-z and diagonals in 1-3 dimensions.  Every update call is recorded
          with all rows of the three arrays before and after; TLC evaluates
          the property layer on the recorded calls (TraceInletOutlet.tla) and
-         prints the verdict.  Recorded traces with one corrupted field must
+         prints the verdict.  A tenth of the scenarios are sequences: two or
+         three inlet/outlet pairs with the same array names and different
+         geometries built one after the other in ONE process and driven
+         interleaved, each judged with its own geometry (state kept per
+         process or per array name instead of per object).  Recorded traces with one corrupted field must
          be rejected (binding self-test, every run).
 """
 import copy
@@ -47,10 +51,10 @@ MUTANTS = {'ties_other_way': True, 'recycle_short': False, 'no_remove': False,
            'drop_prop': False}
 
 
-def scenario(rng, k, thorough, tag='s'):
-    mode = 'manager' if rng.random() < 0.6 else 'direct'
+def scenario(rng, k, thorough, tag='s', dim=None, mode=None, steps=None):
+    mode = mode or ('manager' if rng.random() < 0.6 else 'direct')
     fam = FAMILIES[k % 5]
-    dim = rng.choice([1, 2, 2, 3])
+    dim = dim or rng.choice([1, 2, 2, 3])
     if dim > 1 and rng.random() < 0.3:
         flow = rng.choice(DIAG[dim])
     else:
@@ -91,7 +95,8 @@ def scenario(rng, k, thorough, tag='s'):
     fluid = [c for c in cand if rng.random() < pf]
     M = 8
     prof = rng.choice(['uniform', 'random', 'random', 'slow', 'back', 'burst'])
-    nsteps = rng.randint(3, 8) if not thorough else rng.randint(4, 18)
+    nsteps = steps or (rng.randint(3, 8) if not thorough
+                       else rng.randint(4, 18))
     ops = []
     for st in range(nsteps):
         def field():
@@ -123,6 +128,43 @@ def scenario(rng, k, thorough, tag='s'):
                 active=active, ghost=ghost,
                 inlet=[list(p) for p in inlet], fluid=[list(p) for p in fluid],
                 outlet=[list(p) for p in outlet], ops=ops)
+
+
+def geometry(s):
+    return (s['flow'], s['origin'], s['Lin'], s['X'], s['Lout'], s['unit_exp'])
+
+
+def seq_scenario(rng, k, thorough):
+    """Two or three short histories with the same array names ('inlet',
+    'fluid', 'outlet'), the same dimension and different geometries (flow
+    axis and direction, reference point, zone lengths, outlet plane), run
+    interleaved in one process by the driver."""
+    n = rng.choice([2, 3])
+    dim = rng.choice([1, 2, 2, 3])
+    fam = rng.randrange(5)
+    subs = []
+    for j in range(n):
+        for attempt in range(50):
+            kk = fam if rng.random() < 0.7 else rng.randrange(5)
+            s = scenario(rng, kk, thorough, tag='q%d.' % k, dim=dim,
+                         steps=rng.randint(2, 4 if not thorough else 6))
+            s['id'] = 'q%d.%d' % (k, j)
+            if all(geometry(s) != geometry(t) for t in subs) and \
+                    (attempt > 20 or all(s['flow'] != t['flow'] or
+                                         s['origin'] != t['origin']
+                                         for t in subs)):
+                break
+        subs.append(s)
+    return dict(id='q%d' % k, seq=subs)
+
+
+def flatten(scens):
+    for s in scens:
+        if 'seq' in s:
+            for t in s['seq']:
+                yield t, s
+        else:
+            yield s, s
 
 
 def warm_scenarios():
@@ -296,8 +338,10 @@ def body(chk):
                 for n in (DESIGN_QUICK if quick else DESIGN_THOROUGH)]
         if not quick or chk.args.selftest:
             mfut = [pool.submit(mut, m) for m in sorted(MUTANTS)]
-        n = 1000 if quick else 7000
+        n, nq = (640, 90) if quick else (5500, 600)
         scens = [scenario(rng, k, not quick) for k in range(n)]
+        scens += [seq_scenario(rng, k, not quick) for k in range(nq)]
+        rng.shuffle(scens)
         # compile the evaluators once (one process per family and mode),
         # so that the parallel phase only loads cached modules
         wjobs = []
@@ -335,7 +379,11 @@ def body(chk):
     recs = []
     for fi, fo in files:
         recs += [l for l in open(fo)]
-    by_id = {s['id']: s for s in scens}
+    by_id = {}
+    parent = {}
+    for s, top in flatten(scens):
+        by_id[s['id']] = s
+        parent[s['id']] = top
     rec_by_id = {}
     for l in recs:
         r = json.loads(l)
@@ -435,7 +483,8 @@ def body(chk):
             '%s %s dim %d flow %s: call %d breaks %s %s' % (
                 s['mode'], s['family'], s['dim'], s['flow'], first, clauses,
                 why[:200]),
-            dict(scenario=s, failed=v['failed'], known=v['known'],
+            dict(scenario=parent[v['id']], member=v['id'],
+                 failed=v['failed'], known=v['known'],
                  code=r.get('code'), g=r.get('g')))
     dstates = dtrans = 0
     dinfo = {}
@@ -477,6 +526,9 @@ def body(chk):
         design_runs=dinfo, design_mutants=minfo, phases=phases,
         seeded_faults_in_real_update=seeded,
         traces_validated_against_impl=len(verdicts) - len(mutants),
+        same_name_sequences=sum(1 for x in scens if 'seq' in x),
+        histories_in_sequences=sum(len(x['seq']) for x in scens
+                                   if 'seq' in x),
         particles_entered=nent,
         particles_left=nleft, particles_deleted=ndel,
         corrupted_traces_rejected=rejected_mutants,
@@ -485,7 +537,9 @@ def body(chk):
         evaluations=ncalls, distinct_nontrivial=len(nontrivial),
         rule='a case is one history (geometry, initial particles, 6-36 '
              'advect-then-update rounds) replayed into real Inlet/Outlet '
-             'objects and judged call by call by TLC; distinct by the '
+             'objects (alone in a process, or 2-3 pairs with the same array '
+             'names and different geometries interleaved in one process) '
+             'and judged call by call by TLC; distinct by the '
              'scenario; non-trivial when at least 2 particles entered the '
              'fluid, 1 left it and 1 was deleted during the history',
         samples=[sample] if sample else [],
